@@ -698,7 +698,18 @@ func (w *World) Build(fi int, spec FuncSpec, r *rand.Rand, extra ...am.Arg) (*Bu
 		return res
 	})
 	raw := fn.Interface()
-	f, err := am.NewFunc(raw, opts...)
+	var f *am.Func
+	var err error
+	if r.Intn(5) == 0 {
+		// the list constructor is documented to be NewFunc for each element
+		var fl []*am.Func
+		fl, err = am.NewFuncList([]interface{}{raw}, opts...)
+		if err == nil {
+			f = fl[0]
+		}
+	} else {
+		f, err = am.NewFunc(raw, opts...)
+	}
 	if err != nil {
 		return nil, err
 	}
@@ -731,11 +742,11 @@ type Inst struct {
 var errDupType = errors.New("two generated functions share a Go type")
 
 // Instantiate builds all functions of s in a fresh world.
-func Instantiate(s Scenario, r *rand.Rand) (*Inst, error) {
+func Instantiate(s Scenario, r *rand.Rand, targetDefaults ...am.Arg) (*Inst, error) {
 	w := NewWorld()
 	in := &Inst{W: w, S: s}
 	seen := map[reflect.Type]bool{}
-	t, err := w.Build(-1, s.Target, r)
+	t, err := w.Build(-1, s.Target, r, targetDefaults...)
 	if err != nil {
 		return nil, fmt.Errorf("target: %w", err)
 	}
